@@ -301,6 +301,9 @@ fn sqrt_s(x: &BigRational) -> BigRational {
 }
 fn tanh_s(x: &BigRational) -> BigRational {
     let (f, p) = prec();
+    // saturate: beyond |x| = 20 the result is constant (keeps the exponent small)
+    let lim = BigRational::from_integer(BigInt::from(20));
+    let x = &(if *x > lim { lim.clone() } else if *x < -lim.clone() { -lim.clone() } else { x.clone() });
     let e2 = exp_fix(&(x * BigRational::from_integer(BigInt::from(2))), f);
     let v = ((&e2 - pow2(f)) * pow2(f)).div_floor(&(&e2 + pow2(f)));
     outgrid(&v, f, p)
